@@ -182,7 +182,7 @@ class SeqSuite(Suite):
                 k = 0
                 coro = rng.random() < 0.45
                 kind = rng.randint(0, 7)
-                drop = coro and rng.random() < 0.15
+                drop = coro and rng.random() < 0.25
                 sz = fs[kind] if coro else pick_size()
                 if pol == "placement" and sz + ex > p:
                     continue
@@ -209,7 +209,10 @@ class SeqSuite(Suite):
                         inplace[nframes] = k
                     if not fits:
                         state = sz + ex + 1
-                if coro:
+                if coro and drop and rng.random() < 0.5:
+                    # started with a promise that cannot be claimed (default constructed / moved-from / already resolved)
+                    lines.append("cstart %d %d %d" % (k, kind, rng.randint(0, 2)))
+                elif coro:
                     lines.append("%s %d %d" % ("cdrop" if drop else "coro", k, kind))
                 else:
                     lines.append("alloc %d %d" % (k, sz))
@@ -234,7 +237,7 @@ class SeqSuite(Suite):
         return [self.gen_case(rng, fs) for _ in range(n)]
 
     def nontrivial(self, case, out):
-        allocs = [l for l in out if re.match(r"(alloc|coro|cdrop)#", l)]
+        allocs = [l for l in out if re.match(r"(alloc|coro|cdrop|cstart)#", l)]
         if len(allocs) < 3:
             return False
         return any(" ; " not in l for l in allocs) or case["lines"][0].split()[3] in ("default", "placement")
@@ -258,9 +261,9 @@ class SeqSuite(Suite):
                     nlive -= 1
                 if head and head[0] in ("mvctor", "mvassign") and nlive > 0:
                     moves_live += 1
-                if not head or not re.match(r"(alloc|coro|cdrop)#", head[0]):
+                if not head or not re.match(r"(alloc|coro|cdrop|cstart)#", head[0]):
                     continue
-                if not head[0].startswith("cdrop"):
+                if not head[0].startswith(("cdrop", "cstart")):
                     nlive += 1
                 if head[0].startswith("alloc"):
                     raw += 1
@@ -272,7 +275,7 @@ class SeqSuite(Suite):
                 dels = sum(1 for e in evs if e.startswith("del"))
                 if news == 0:
                     reuse += 1
-                elif dels and not head[0].startswith("cdrop"):
+                elif dels and not head[0].startswith(("cdrop", "cstart")):
                     growth += 1
                 elif h[3] in ("mtsafe", "stack", "static"):
                     fallback += 1
@@ -306,8 +309,12 @@ class SeqSuite(Suite):
             head, evs = split_line(line)
             if not head:
                 continue
-            m = re.match(r"(alloc|coro|cdrop|free|fin|kill|obj)#(\d+)$", head[0])
+            m = re.match(r"(alloc|coro|cdrop|cstart|free|fin|kill|obj)#(\d+)$", head[0])
             kind = m.group(1) if m else head[0]
+            if kind == "cstart":
+                if field(head, "started") != "0":
+                    msgs.append("routing: start(promise) reported success for a promise that cannot be claimed")
+                kind = "cdrop"
             if kind in ("alloc", "coro", "cdrop"):
                 fid = m.group(2)
                 sz = int(field(head, "sz"))
